@@ -4,9 +4,10 @@
 // token.h with `private` spelled `public`).
 //
 // op line :  sev <checker> <opts> <param> <values> [/ <values>]
-//     checker = zerodiv | nullptr | arrayidx | shiftbits | shiftneg | intoverflow | uninit | invalidarg
-//     opts    = 4 bits: warning portability inconclusive cplusplus(C++ translation unit, std >= C++14)
+//     checker = zerodiv | nullptr | arrayidx | arrayidx2 | shiftbits | shiftneg | intoverflow | uninit | invalidarg
+//     opts    = 4 bits: warning portability inconclusive cplusplus(C++ translation unit, std >= C++14) [+ 1 bit the model reads]
 //     param   = zerodiv: -            nullptr: -           arrayidx: <array size>      shiftbits: s|u (sign of the left operand)
+//               arrayidx2: <d1>x<d2>  (`a[i][j]` on `int a[d1][d2]`; first value list = i, second = j)
 //               shiftneg: <l><r> each s|u      intoverflow: + | <<        uninit: -       invalidarg: - (isdigit, valid 0:255 / -1)
 //     values  = `-` or space separated  <K|P|N|I><i|u|o>,<intvalue>,<flags>   flags over c(condition) d(defaultArg) e(errorPath)
 //               s(safe) m(outOfMemory) r(outOfResources) p<n>(path) x<n>(indirect), `-` for none
@@ -125,7 +126,7 @@ static void setValues(const Token* tok, const std::vector<ValueFlow::Value>& val
 static std::string run(const std::string& libpath, const std::vector<std::string>& f)
 {
     // f: sev checker opts param values...
-    if (f.size() < 5 || f[2].size() != 4)
+    if (f.size() < 5 || f[2].size() < 4)       // a fifth character (code variant, read by the model only) is ignored here
         return "bad-op";
     const std::string& checker = f[1];
     const std::string& param = f[3];
@@ -143,6 +144,11 @@ static std::string run(const std::string& libpath, const std::vector<std::string
     if (checker == "zerodiv") code = "int f(int a, int b) { return a / b; }";
     else if (checker == "nullptr") code = "int f(int *p) { return *p; }";
     else if (checker == "arrayidx") code = "int f(int i) { int a[" + param + "]; a[0] = 0; return a[i]; }";
+    else if (checker == "arrayidx2") {
+        const std::string::size_type x = param.find('x');
+        if (x == std::string::npos) return "bad-op";
+        code = "int f(int i, int j) { int a[" + param.substr(0, x) + "][" + param.substr(x + 1) + "]; a[0][0] = 0; return a[i][j]; }";
+    }
     else if (checker == "shiftbits") code = std::string("int f(") + (param == "u" ? "unsigned " : "") + "int a, int n) { return a << n; }";
     else if (checker == "shiftneg") {
         if (param.size() != 2) return "bad-op";
@@ -172,6 +178,7 @@ static std::string run(const std::string& libpath, const std::vector<std::string
         else if (checker == "nullptr") t1 = top->astOperand1();
         else if (checker == "arrayidx") t1 = top->astOperand2();
         else if (checker == "shiftneg") { t1 = top->astOperand1(); t2 = top->astOperand2(); }
+        else if (checker == "arrayidx2") { t1 = top->astOperand1() ? top->astOperand1()->astOperand2() : nullptr; t2 = top->astOperand2(); }
         else if (checker == "intoverflow" || checker == "uninit") t1 = top;
         else if (checker == "invalidarg") t1 = top->astOperand2();
         if (!t1)
@@ -196,7 +203,7 @@ static std::string run(const std::string& libpath, const std::vector<std::string
         logger.items.clear();
         if (checker == "zerodiv") { CheckOther c(&tokenizer, &settings, &logger); c.checkZeroDivision(); }
         else if (checker == "nullptr") { CheckNullPointer c(&tokenizer, &settings, &logger); c.nullPointer(); }
-        else if (checker == "arrayidx") { CheckBufferOverrun c(&tokenizer, &settings, &logger); c.arrayIndex(); }
+        else if (checker == "arrayidx" || checker == "arrayidx2") { CheckBufferOverrun c(&tokenizer, &settings, &logger); c.arrayIndex(); }
         else if (checker == "shiftbits") { CheckType c(&tokenizer, &settings, &logger); c.checkTooBigBitwiseShift(); }
         else if (checker == "shiftneg") { CheckOther c(&tokenizer, &settings, &logger); c.checkNegativeBitwiseShift(); }
         else if (checker == "intoverflow") { CheckType c(&tokenizer, &settings, &logger); c.checkIntegerOverflow(); }
